@@ -28,7 +28,11 @@
 (*           higher), or -1 = unknown: Init chooses any order              *)
 (*     arr   arrival automaton, or [k |-> "chain"] if activated by pred    *)
 (*     succ  index of the successor callback in its chain (0 = none)       *)
-(*     C     WCET                                                          *)
+(*     C     WCET (of a single instance)                                   *)
+(*     w     optional cumulative-cost prefix (wcet::Curve): any n          *)
+(*           consecutive instances cost at most w[n] in total; << >> =     *)
+(*           scalar WCET.  hist keeps the costs of the last Len(w)-1       *)
+(*           completed instances (cost automaton, as in Sched.tla).        *)
 (*     R     bound on the age of its instances claimed by the              *)
 (*           implementation (for chain members: the end-to-end bound of    *)
 (*           the chain), -1 = no claim;  cap = queue capacity              *)
@@ -37,14 +41,29 @@ EXTENDS Integers, Sequences, FiniteSets, TLC, Json, IOUtils
 
 Sys == ndJsonDeserialize(IOEnv.BATCH)
 
-VARIABLES cfg, rank, arr, pend, cur, ready, sup, ptr
-vars == <<cfg, rank, arr, pend, cur, ready, sup, ptr>>
+VARIABLES cfg, rank, arr, pend, cur, ready, sup, ptr, hist
+vars == <<cfg, rank, arr, pend, cur, ready, sup, ptr, hist>>
 
 S == Sys[cfg]
 N == Len(S.cbs)
 CB(i) == S.cbs[i]
 Claimed(i) == CB(i).R >= 0
 External(i) == CB(i).arr.k # "chain"
+HasCurve(i) == "w" \in DOMAIN CB(i) /\ Len(CB(i).w) > 0
+RECURSIVE SumFirst(_, _)
+SumFirst(s, n) == IF n = 0 THEN 0 ELSE s[n] + SumFirst(s, n - 1)
+\* the largest cost the next instance of callback i may have, given the costs of its predecessors
+AllowedCost(i) ==
+    IF ~HasCurve(i) THEN CB(i).C
+    ELSE LET w == CB(i).w
+             h == hist[i]
+             lim(m) == w[m] - SumFirst(h, m - 1)
+             ms == 1..(IF Len(h) + 1 <= Len(w) THEN Len(h) + 1 ELSE Len(w))
+         IN CHOOSE x \in {lim(m) : m \in ms} : \A y \in {lim(m) : m \in ms} : x <= y
+Record(i, cost) ==
+    IF ~HasCurve(i) THEN hist[i]
+    ELSE LET h2 == <<cost>> \o hist[i]
+         IN IF Len(h2) > Len(CB(i).w) - 1 THEN SubSeq(h2, 1, Len(CB(i).w) - 1) ELSE h2
 Timers == {i \in 1..N : CB(i).t = "timer"}
 Polled == {i \in 1..N : CB(i).t = "polled"}
 
@@ -97,6 +116,7 @@ Init ==
     /\ ready = {}
     /\ sup \in SupInitSet(S.supply)
     /\ ptr = 1
+    /\ hist = [i \in 1..N |-> << >>]
 
 \* ---- external arrivals (A5) -------------------------------------------------
 Arrive(i) ==
@@ -107,7 +127,7 @@ Arrive(i) ==
     /\ arr' = [arr EXCEPT ![i] = ArrRelease(CB(i).arr, arr[i])]
     /\ pend' = [pend EXCEPT ![i] = Append(pend[i], 0)]
     /\ ptr' = i
-    /\ UNCHANGED <<cfg, rank, cur, ready, sup>>
+    /\ UNCHANGED <<cfg, rank, cur, ready, sup, hist>>
 
 \* ---- dispatching (A1, A2) ---------------------------------------------------
 Best(X) == CHOOSE i \in X : \A j \in X : rank[i] <= rank[j]
@@ -129,7 +149,7 @@ Tick ==
          /\ sup' = SupStep(S.supply, sup, served)
          /\ IF ~served
             THEN /\ pend' = [i \in 1..N |-> AgeSeq(i, pend[i])]
-                 /\ UNCHANGED <<cur, ready>>
+                 /\ UNCHANGED <<cur, ready, hist>>
             ELSE LET d == IF cur[1] # 0 THEN <<cur[1], ready>> ELSE Dispatch
                      i == d[1]
                      done == (IF cur[1] # 0 THEN cur[2] ELSE 0) + 1
@@ -137,8 +157,10 @@ Tick ==
                     THEN /\ pend' = [j \in 1..N |-> AgeSeq(j, pend[j])]
                          /\ cur' = <<0, 0>>
                          /\ ready' = d[2]
+                         /\ hist' = hist
                     ELSE \E complete \in BOOLEAN :
-                           /\ (done = CB(i).C) => complete            \* at most C units (A3)
+                           /\ (done >= AllowedCost(i)) => complete    \* at most the allowed cost (A3)
+                           /\ hist' = IF complete THEN [hist EXCEPT ![i] = Record(i, done)] ELSE hist
                            /\ ready' = d[2]
                            /\ IF complete
                               THEN LET inst == pend[i][1]
